@@ -1,4 +1,4 @@
-"""EXTRA — utilities outside the 20 listed properties (utils/geometry.py, two utils/funcs.py formulas).
+"""EXTRA — utilities outside the 20 listed properties (utils/geometry.py, two utils/funcs.py formulas, utils/fft.py Filon_COS).
 Tie = translator (Pms/GenR/Extra.lean regenerated) + numeric validation of the regenerated Float terms against the real functions +
 the theorems' statements monitored on the real outputs.  Not in MANIFEST.json (no listed property is about these routines)."""
 import logging
@@ -12,8 +12,8 @@ from common import bits2float, float2bits
 logging.disable(logging.WARNING)
 
 PROP = "EXTRA"
-PROPS_FILES = ["Pms/Props/Extra.lean"]
-GENERATORS = ["extra"]
+PROPS_FILES = ["Pms/Props/Extra.lean", "Pms/Props/Filon.lean"]
+GENERATORS = ["extra", "filon"]
 RULE = ("random decimal-grid arguments: 2-D line pairs (non-parallel, |D| ≥ 1e-3), triangles from random 2-D/3-D vertices in an open box, "
         "x ∈ [−1, 1]; each evaluation compares the regenerated Lean term (Float) with the real function and checks the theorem's statement on "
         "the real output (point on both lines; law of cosines; Heron = half cross product; P_2 / its 2-D variant; inertia tensor entries)")
@@ -109,7 +109,8 @@ def correspond(run):
         run.count(("inertia", X.tobytes(), m_), True)
         if np.abs(M - ref).max() > 1e-9 or np.abs(vec - np.array([ref[0, 0], ref[1, 1], ref[2, 2], ref[0, 1], ref[0, 2], ref[1, 2]])).max() > 1e-9:
             pf.append(({"kind": "inertia", "X": X.tolist(), "m": m_}, "moment_of_inertia differs from m/N Σ (r² δ_ij − x_i x_j) or from the order [xx, yy, zz, xy, xz, yz]"))
-    run.coverage["programs"] = 5
+    filon_part(run, tdis, pf)
+    run.coverage["programs"] = 6
     run.coverage["disagreements_checked"] = len(tdis)
     broken = []
     if tdis:
@@ -118,6 +119,77 @@ def correspond(run):
         broken.append({"kind": "oracle", "name": "utils.geometry/funcs vs the theorems' statements", "detail": pf[0][1], "cases": [c for c, _ in pf[:5]],
                        "failing": [(c, w) for c, w in pf[:10]]})
     return broken
+
+
+def filon_part(run, tdis, pf):
+    """Filon_COS: (a) the whole routine against the driver's assembly of the regenerated terms, frequency by frequency; (b) the
+    theorems' statements on the real output: ω = 0 is twice Simpson's rule; a quadratic C is transformed exactly."""
+    from PyMatterSim.utils.fft import Filon_COS
+    rng = run.rng
+    cases = []
+    for _ in range(30 if run.tier == "quick" else 600):
+        m = rng.randint(1, 14)
+        dt = float(rng.choice(["0.001", "0.002", "0.005", "0.01", "0.05", "0.1", "0.25"]))
+        npts = 2 * m + 1 + (1 if rng.random() < 0.2 else 0)              # an even number of points: the last one is dropped
+        t = np.array([round(k * dt, 6) for k in range(npts)])
+        quad = rng.random() < 0.5
+        if quad:
+            a0, a1, a2 = [float(common.dec(rng, -2, 2, 2)) for _ in range(3)]
+            C = a0 + a1 * t + a2 * t * t
+        else:
+            a0 = a1 = a2 = None
+            C = np.array([float(common.dec(rng, -2, 2, 3)) for _ in range(npts)])
+        T = t[2 * m]
+        a = 0 if rng.random() < 0.5 else float(common.dec(rng, 0.2, 3, 2)) / T
+        cases.append((m, dt, t, C, a, (a0, a1, a2) if quad else None))
+    ops, meta = [], []
+    for m, dt, t, C, a, q in cases:
+        try:
+            with np.errstate(all="ignore"):
+                df = Filon_COS(C.copy(), t.copy(), a)
+        except Exception as e:
+            pf.append(({"kind": "filon", "m": m, "dt": dt, "C": C.tolist(), "a": a}, f"Filon_COS raised {type(e).__name__}: {e}"))
+            continue
+        run.hist("routine", "filon"); run.hist("filon_points", len(C)); run.hist("filon_input", "quadratic" if q else "random")
+        run.count(("filon", m, dt, C.tobytes(), a), True)
+        case = {"kind": "filon", "m": m, "dt": dt, "C": C.tolist(), "a": a}
+        if len(df) != 2 * m + 1:
+            pf.append((case, f"Filon_COS returned {len(df)} frequencies for {2 * m + 1} used points"))
+            continue
+        Cu, tu = C[:2 * m + 1], t[:2 * m + 1]
+        step = a if a else 2 * math.pi / tu[-1]
+        for n in range(2 * m + 1):
+            om = float(df["omega"].iloc[n])
+            if abs(om - n * step) > 1e-9 * (1 + abs(n * step)):
+                pf.append((case, f"Filon_COS omega[{n}] = {om}, n·a = {n * step}"))
+                break
+            ops.append("filonf " + " ".join(float2bits(x) for x in [dt, om, float(tu[0]), float(tu[-1])] + [float(x) for x in Cu]))
+            meta.append((case, n, om, float(df["FFT"].iloc[n]) * math.pi, Cu, tu, q))
+    outs = common.drive(ops) if ops else []
+    for (case, n, om, real, Cu, tu, q), o in zip(meta, outs):
+        if o == "bad-op":
+            raise common.Infra("driver rejected filonf")
+        model = bits2float(o.split()[0])
+        scale = 1 + float(np.abs(Cu).sum()) * 2 * case["dt"]
+        th = om * case["dt"]
+        # cancellation in α, β, γ grows like eps/θ³: the comparison of two float evaluations is widened accordingly
+        tol = 1e-9 * scale * (1 + (1.0 / th ** 3 if th else 0) * 1e-6)
+        if not abs(real - model) <= tol:
+            tdis.append((case, f"Filon_COS FFT[{n}]·π = {real!r} vs the regenerated terms assembled by the driver {model!r} (ω = {om})"))
+        if n == 0:
+            simpson = case["dt"] / 3 * (Cu[0] + Cu[-1] + 4 * Cu[1:-1:2].sum() + 2 * Cu[2:-1:2].sum())
+            if not abs(real - 2 * simpson) <= 1e-9 * scale:
+                pf.append((case, f"Filon_COS at ω = 0: FFT·π = {real!r}, twice Simpson's rule = {2 * simpson!r}"))
+        elif q and th >= 0.05:
+            a0, a1, a2 = q
+            T = float(tu[-1])
+
+            def F(x):
+                return (a0 * math.sin(om * x) / om + a1 * (x * math.sin(om * x) / om + math.cos(om * x) / om ** 2)
+                        + a2 * (x * x * math.sin(om * x) / om + 2 * x * math.cos(om * x) / om ** 2 - 2 * math.sin(om * x) / om ** 3))
+            exact = 2 * (F(T) - F(0.0))
+            if not abs(real - exact) <= 1e-7 * scale * (1 + 1e-6 / th ** 3):
+                pf.append((case, f"Filon_COS of the quadratic {a0} + {a1} t + {a2} t² at ω = {om}: FFT·π = {real!r}, 2∫₀ᵀ p(t) cos(ωt) dt = {exact!r}"))
 
 
 def search(run, broken):
